@@ -17,6 +17,16 @@ CLAIMED = {
             'A3 exact rational model of float division/np.ceil/np.floor/int() for |operands|<2**53; z3/cvc5 soundness; '
             'VC generator (guarded by CPython cross-check and canary obligations). assignReads bin-increment block: see C11.',
             '5/C10'),
+    'C17': ('Unbounded proof (loop invariants, loop-body contracts, callee contracts) that fill_range yields exactly the '
+            'spec bins, trim_rangelist keeps exactly the clipped non-empty intersections in order, and blacklisted_binning '
+            'sweeps a coverage cursor from start_coord to end_coord: every bin starts at the cursor, is non-empty, <= bin_size, '
+            'ends at or before the next blacklisted start, the cursor reaches every blacklisted start, and every fetch window '
+            'contains its bin, extends <= fragment_size and stays inside its gap and the region; for all regions, bin sizes, '
+            'fragment sizes and blacklists (None / <=1 / >1 intervals).',
+            'merge_overlapping_ranges is assumed at the call site (sorted, disjoint, ordered) and itself verified only for '
+            'list length <= 3 with symbolic bounds (bounded stand-in, reported separately); A3 exact int(a/b); z3 non-linear '
+            'arithmetic for local_bin_size facts; bp_chunked / blacklisted_binning_contigs wrappers not under contract yet.',
+            '5/C17, appendix B.1-B.2'),
 }
 
 NOT_YET = 'check not built yet (framework under construction; see DESIGN.md section 5)'
